@@ -442,8 +442,21 @@ fn check_for_string(src: &str) -> Option<(TokenKind, usize)>
 
 	if !walker.consume_char('\"')
 		{ return None; }
-		
-	walker.consume_until_char('\"');
+
+	// The closing quote is the first one
+	// that is not escaped by a backslash
+	while !walker.ended() && walker.current != '\"'
+	{
+		if walker.current == '\\'
+		{
+			walker.advance();
+		}
+
+		if !walker.ended()
+		{
+			walker.advance();
+		}
+	}
 		
 	if !walker.consume_char('\"')
 		{ return None; }
